@@ -39,16 +39,22 @@ NOTES.append("doubles vs rationals: the code compares the double fl((K-c)/K) (Py
 NOTES.append("k in {10,11,12,16,36} (r = 0 and, up to k = 16, r = 1) exercise the LETTER digits of np.base_repr ('AAA' is code [10;10;10] "
              "in the model) incl. strong quiescence at k >= 11; k = 36, r = 1 (46656 entries) is oracle-only like the large bucket; "
              "k = 1 and k = 37 are the rejected neighbours of the domain of C17_rrt_defined")
-NOTES.append("bucket 'paramtypes/*' mirrors what the unchanged library does with other argument forms: k, r, quiescent_state as "
-             "np.int32/int64/uint8 scalars (accepted; sizes with k^n <= 255 only, because with 8-bit scalars k**n wraps silently, e.g. "
-             "uint8 5**5 = 53 states); lambda_val as np.float64, np.float32 (dyadic values only: with a float32 target the library "
-             "compares in float32 or float64 depending on whether k is a Python or a NumPy int), Python int 0/1, Fraction (walk-through "
-             "only where K is a power of two: the library compares a Fraction target exactly with the double (K-c)/K, so for K = 27 "
-             "Fraction(9,27) is not recognised as reached on a table at 9/27), every exact double m/K incl. the m with (m/K)*K != m "
-             "(K = 243: 61, 122, 127); table_rule neighbourhoods as list/tuple/ndarray int8..int64/uint8 (decimal rendering) and "
-             "float64/float32/list of floats/bool (str(x) = '1.0' / 'True': looked up under exactly that string, ValueError otherwise); "
-             "tables as dict subclass, OrderedDict, defaultdict, MappingProxyType (table_rule: accepted; walk-through: returns iff no "
-             "perturbation is due, else the assignment raises)")
+NOTES.append("bucket 'paramtypes/*' mirrors what the library does with other argument forms: k, r, quiescent_state as "
+             "np.int32/int64/uint8 scalars; 'paramtypes/narrow_overflow/*': k, r as np.int8/uint8/int16 scalars whose k**(2r+1) is "
+             "beyond the type's range (k=5 r=2, k=4 r=2, k=3 r=3, k=16 r=1, k=7 r=1, k=2 r=3..; int16 with k=8 r=2 / k=2 r=7 is "
+             "oracle-only, 32768 entries) - the regression test of repair dc48e45 (operator.index on entry; before it k**n wrapped "
+             "silently, e.g. uint8 5**5 = 53 states); lambda_val as np.float64, np.float32 (dyadic values only), Python int 0/1, Fraction "
+             "(walk-through only where K is a power of two), every exact double m/K incl. the m with (m/K)*K != m (K = 243: 61, 122, "
+             "127); table_rule neighbourhoods as list/tuple/ndarray int8..int64/uint8 (decimal rendering) and float64/float32/list of "
+             "floats/bool (str(x) = '1.0' / 'True': looked up under exactly that string, ValueError otherwise); tables as dict subclass, "
+             "OrderedDict, defaultdict, MappingProxyType (table_rule: accepted; walk-through: returns iff no perturbation is due, else "
+             "the assignment raises)")
+NOTES.append("what the check assumes about lambda_val: it is a Python float (or int 0/1, or np.float64 - the same IEEE double); the model's "
+             "rational is the reading of that double (lam_reading). Recorded, not claimed (the property text leaves the representation of "
+             "the target open): a Fraction target is compared EXACTLY with the double (K-c)/K, so for K not a power of two an on-target "
+             "table is not recognised (K = 27, Fraction(9,27): one entry perturbed, 10/27 returned); an np.float32 target is compared in "
+             "float32 (since dc48e45 k is always a Python int, so this no longer depends on k's type): np.float32(9/27) counts as reached "
+             "on a table at 9/27 although its value differs from 9/27 by 1e-8")
 ASSUMPTIONS = ['rational draws u and lambda a/b are passed to the code as the doubles a/b; a draw that ties with 1 - lambda is generated '
                'only when both are dyadic (exact in doubles); distinct small fractions differ by far more than an ulp',
                'exception classes of random_rule_table / table_walk_through are not compared (any exception on both sides agrees); '
